@@ -1844,7 +1844,7 @@ def hdrcountuse(pid):
     def run(ctx):
         res = RuleResult("R-HDRCOUNTUSE(%s)" % pid, "outside Header::read_from / write_to the header's sector counts are only compared, never used in arithmetic, as a capacity or as a loop bound")
         n = 0
-        rx = re.compile(r"\.num_(fat|difat|minifat|dir)_sectors\b")
+        rx = re.compile(r"(Header::read_from\([^()]*\)\)|(param|var):\w*header\w*)\.num_(fat|difat|minifat|dir)_sectors\b")
         for f in ctx.fx.fns.values():
             if "internal::header::" in f.path:
                 continue
